@@ -60,6 +60,7 @@ def recording_class(world):
 
             def schedule_absolute(self, duetime, action, state=None):
                 d = super().schedule_absolute(duetime, action, state)
+                self._enq_hook(len(self._handles), duetime)
                 self._handles.append(d)
                 return d
         Rec.__name__ = "Rec" + base.__name__
@@ -80,6 +81,7 @@ class World:
         else:
             self.s = cls(self.abs_(c0))
         self.s._handles = []
+        self.s._enq_hook = lambda i, due: None
 
     def abs_(self, t):
         if self.world == "hist":
@@ -110,14 +112,17 @@ class World:
 def run_impl(world, c0, history, catch=None, timeout=10.0, iwp=False, clock_via="clock"):
     """Run `history` on the real scheduler.  catch = None | dict code->verdict
     (then every schedule call goes through CatchScheduler(inner, handler) and
-    actions use the scheduler handed to them).  Returns the observation list."""
+    actions use the scheduler handed to them).  Returns (observation list compared with
+    the model, trace for the oracles)."""
     lib.import_repo()
     from reactivex.internal import ArgumentOutOfRangeException
     from reactivex.scheduler import VirtualTimeScheduler
     w = World(world, c0, iwp)
     s = w.s
     obs = []
+    trace = []          # richer event list for the oracles (never compared with the model)
     phandles = []
+    s._enq_hook = lambda i, due: trace.append(("enq", i, w.us(due)))
 
     def read():
         if clock_via == "clock":
@@ -130,6 +135,7 @@ def run_impl(world, c0, history, catch=None, timeout=10.0, iwp=False, clock_via=
         def handler(ex):
             code = ex.code if isinstance(ex, UserErr) else (AOOR if isinstance(ex, ArgumentOutOfRangeException) else -99)
             obs.append(("handler", code))
+            trace.append(("handler", code))
             return catch[str(code)] if str(code) in catch else catch.get(code, False)
         top = CatchScheduler(s, handler)
     else:
@@ -141,14 +147,17 @@ def run_impl(world, c0, history, catch=None, timeout=10.0, iwp=False, clock_via=
 
         def paction(state):
             obs.append(("tick", pid, int(state), read()))
+            trace.append(("tick", pid, int(state), obs[-1][3]))
             r = entries.get(int(state), default)
             for n in r[1]:
                 obs.append(("note", n))
             if r[0] == "next":
                 return r[2]
             if r[0] == "disp":
+                trace.append(("pcancel", pid))
                 phandles[pid].dispose()
                 return 0
+            trace.append(("raise", r[2]))
             raise UserErr(r[2])
         return paction
 
@@ -156,10 +165,16 @@ def run_impl(world, c0, history, catch=None, timeout=10.0, iwp=False, clock_via=
         k = cmd[0]
         if k == "sched":
             _, when, label, body = cmd
+            before = read()
+            iid = len(s._handles)
+            # the due time the call asks for (specification, not the implementation's arithmetic)
+            due = when[1] if when[0] == "abs" else before + when[1] if when[0] == "rel" else before
 
-            def action(sc2, state, label=label, body=body):
+            def action(sc2, state, label=label, body=body, iid=iid):
+                k_ = read()
                 if label >= 0:
-                    obs.append(("run", label, read()))
+                    obs.append(("run", label, k_))
+                trace.append(("run", iid, label, k_))
                 for c in body:
                     do(sc2, c)
             if when[0] == "rel":
@@ -168,23 +183,33 @@ def run_impl(world, c0, history, catch=None, timeout=10.0, iwp=False, clock_via=
                 sc.schedule_absolute(w.abs_(when[1]), action)
             else:
                 sc.schedule(action)
+            trace.append(("sched", iid, label, due, before))
         elif k == "cancel":
             if cmd[1] < len(s._handles):
+                trace.append(("cancel", cmd[1]))
                 s._handles[cmd[1]].dispose()
         elif k == "stop":
+            trace.append(("stop",))
             s.stop()
         elif k == "sleep":
-            s.sleep(w.rel_(cmd[1]))
+            before = read()
+            try:
+                s.sleep(w.rel_(cmd[1]))
+            finally:
+                trace.append(("sleep", cmd[1], before, read()))
         elif k == "raise":
+            trace.append(("raise", cmd[1]))
             raise UserErr(cmd[1])
         elif k == "note":
             obs.append(("note", cmd[1]))
         elif k == "periodic":
             pid = len(phandles)
             phandles.append(None)
+            trace.append(("periodic", pid, cmd[1], cmd[3], read(), len(s._handles)))
             phandles[pid] = sc.schedule_periodic(w.rel_(cmd[1]), make_paction(pid, cmd[2]), cmd[3])
         elif k == "pcancel":
             if cmd[1] < len(phandles) and phandles[cmd[1]] is not None:
+                trace.append(("pcancel", cmd[1]))
                 phandles[cmd[1]].dispose()
         else:
             raise ValueError(cmd)
@@ -206,18 +231,23 @@ def run_impl(world, c0, history, catch=None, timeout=10.0, iwp=False, clock_via=
 
     def whole():
         for tc in history:
+            trace.append(("top", tc[0], tc[1] if len(tc) > 1 and tc[0] != "do" else None, read()))
             try:
                 top_cmd(tc)
             except UserErr as e:
                 obs.append(("exc", e.code))
+                trace.append(("exc", e.code))
             except ArgumentOutOfRangeException:
                 obs.append(("exc", AOOR))
+                trace.append(("exc", AOOR))
             obs.append(("clock", read()))
+            trace.append(("ret", obs[-1][1]))
 
     status, _ = lib.with_timeout(timeout, whole)
     if status == "timeout":
         obs.append(("hang",))
-    return obs
+        trace.append(("hang",))
+    return obs, trace
 
 
 # ------------------------------------------------------------------ Gallina
@@ -428,3 +458,136 @@ class Gen:
 
     def history(self, world, n, bounded_only=False):
         return [self.top(world, bounded_only) for _ in range(n)]
+
+
+# ------------------------------------------------------------------ oracle (C28 / C29)
+
+BUMP = {"vts": US, "test": US, "hist": 1000}
+
+
+def oracle_vt(world, trace, check_exact=True):
+    """Direct predicate of the C28 statement on what the implementation did.
+    Never consults the model.  Returns a list of (signature, detail).
+
+    pending: items scheduled and not yet run, by id -> (due, label, cancelled).
+    """
+    bad = []
+    pending = {}          # id -> [due, label, cancelled]
+    enq_due = {}          # id -> due seen by the instrumentation hook
+    cur = None            # last clock reading
+    top = None            # current top-level command (kind, arg, clock before)
+    in_loop = False       # inside start()/advance_to(): items may be dequeued
+    stuck = False         # an exception escaped a run loop: _is_enabled stays True (documented quirk)
+    stopped = False
+    pops_since_move = 0
+    n_cancels = 0         # cancelled items are dequeued silently and count as spin iterations
+    ran_in_top = []
+    exc_in_top = None
+
+    def reading(k, what):
+        nonlocal cur
+        if cur is not None and k < cur:
+            bad.append(("clock-moved-backwards", f"{what}: clock reading {k} after {cur}"))
+        cur = k
+
+    for ev in trace:
+        k = ev[0]
+        if k == "top":
+            top = ev
+            reading(ev[3], "before top-level call")
+            in_loop = ev[1] in ("start", "start_test", "advto", "advby")
+            stopped = False
+            ran_in_top = []
+            exc_in_top = None
+            pops_since_move = 0
+        elif k == "enq":
+            enq_due[ev[1]] = ev[2]
+            if ev[1] not in pending:
+                pending[ev[1]] = [ev[2], None, False]      # item not created by the harness (periodic, start_test)
+        elif k == "sched":
+            _, iid, label, due, before = ev
+            if enq_due.get(iid) != due:
+                bad.append(("due-time-not-relative-to-clock-at-scheduling",
+                            f"item {iid} label {label}: asked for due {due} (clock {before}), enqueued with {enq_due.get(iid)}"))
+            pending[iid] = [due, label, pending.get(iid, [0, 0, False])[2]]
+        elif k == "cancel":
+            n_cancels += 1
+            if ev[1] in pending:
+                pending[ev[1]][2] = True
+        elif k == "stop":
+            stopped = True
+            stuck = False
+        elif k == "sleep":
+            _, d, before, after = ev
+            reading(before, "before sleep")
+            if d >= 0 and after != before + d:
+                bad.append(("sleep-clock", f"sleep({d}) moved the clock from {before} to {after}"))
+            if d < 0 and after != before:
+                bad.append(("sleep-clock", f"sleep({d}) moved the clock from {before} to {after}"))
+            reading(after, "after sleep")
+        elif k == "run":
+            _, iid, label, clk = ev
+            if iid not in pending:
+                bad.append(("ran-twice-or-unscheduled", f"item {iid} label {label}"))
+                continue
+            due, _, cancelled = pending.pop(iid)
+            if cancelled:
+                bad.append(("cancelled-action-ran", f"item {iid} label {label} ran at {clk} after its disposable was disposed"))
+            # order: no pending, non-cancelled item precedes it in (due, scheduling order)
+            for j, (dj, lj, cj) in pending.items():
+                if not cj and lj is not None and (dj, j) < (due, iid):
+                    bad.append(("run-order", f"item {iid} (due {due}) ran while item {j} (due {dj}) scheduled earlier in (due, order) was pending"))
+                    break
+            # clock at run
+            before = cur
+            exp = max(before, due)
+            if clk != exp:
+                skipped = [dj for j, (dj, lj, cj) in pending.items() if cj and exp < dj <= clk]
+                bumped = (top is not None and top[1] in ("start", "start_test") and clk == before + BUMP[world]
+                          and due <= before and pops_since_move + n_cancels > 100)
+                if not (bumped or (skipped and clk == max(skipped))):
+                    bad.append(("clock-at-run", f"item {iid} due {due} ran with clock {clk}; clock before {before}"))
+            if clk != before:
+                pops_since_move = 0
+            pops_since_move += 1
+            reading(clk, "at run")
+            ran_in_top.append((iid, due))
+        elif k == "tick":
+            reading(ev[3], "at periodic tick")
+        elif k == "exc":
+            exc_in_top = ev[1]
+        elif k == "ret":
+            after = ev[1]
+            kind, arg, before = top[1], top[2], top[3]
+            if kind in ("advto", "advby"):
+                target = arg if kind == "advto" else before + arg
+                own_check = target < before
+                if exc_in_top is not None and not own_check:
+                    stuck = True
+                if exc_in_top is None and not stuck and check_exact:
+                    late = [(i, d) for i, d in ran_in_top if d > target]
+                    if late:
+                        bad.append(("advance-ran-item-due-after-target", f"target {target}: ran {late}"))
+                    left = sorted((d, i) for i, (d, l, c) in pending.items() if not c and l is not None and d <= target)
+                    if target == before:
+                        if left:
+                            bad.append(("advance_to-target-equals-clock",
+                                        f"advance to {target} with the clock at {before}: items due at or before the "
+                                        f"target were not run: {left[:3]}"))
+                    elif target > before:
+                        if left and not stopped:
+                            bad.append(("advance-left-due-item", f"target {target}: still pending {left[:3]}"))
+                        if after != max(target, cur):
+                            bad.append(("advance-clock-not-at-target", f"target {target}: clock {after} (last reading {cur})"))
+            elif kind in ("start", "start_test"):
+                if exc_in_top is not None:
+                    stuck = True
+                elif not stuck and not stopped and check_exact:
+                    left = sorted((d, i) for i, (d, l, c) in pending.items() if not c and l is not None)
+                    if left:
+                        bad.append(("start-left-item", f"start() returned with pending {left[:3]}"))
+            reading(after, "after top-level call")
+            in_loop = False
+        elif k == "hang":
+            bad.append(("hang", f"no return within the watchdog during {top[1:] if top else None}"))
+    return bad
